@@ -21,7 +21,17 @@ def run (args : List String) : Option String :=
   match args with
   | ["refs", did, name, scope, toks] =>
     let sn : Option (Option String) := if name == "none" then some none else (unhex name).map (fun t => some (String.ofList t))
-    let sc : Option (List Nat) := if scope == "-" then some [] else (scope.splitOn ",").mapM (fun x => x.toNat?)
+    -- scope: `L:<own>` (a local), `G:<own>:<files of the package graph>` (anything else), or an explicit list of files
+    let nats (t : String) : Option (List Nat) := if t == "" || t == "-" then some [] else (t.splitOn ",").mapM (fun x => x.toNat?)
+    let sc : Option (List Nat) :=
+      match scope.splitOn ":" with
+      | ["L", own] => own.toNat?.map (fun o => searchScope [] true o)
+      | ["G", own, files] =>
+        match own.toNat?, nats files with
+        | some o, some fs => some (searchScope fs false o)
+        | _, _ => none
+      | [l] => nats l
+      | _ => none
     let ts : Option (List Tok) := if toks == "-" then some [] else (toks.splitOn ";").mapM parseTok
     match did.toNat?, sn, sc, ts with
     | some d, some n, some sc, some ts => some (showRefs (references ts { id := d, searchName := n, scope := sc }))
